@@ -54,7 +54,7 @@ impl Prop for C05 {
     fn case_label(&self, tier: Tier, idx: usize) -> String { cases(tier)[idx].label.clone() }
     fn rule(&self) -> String {
         "case = (Quake version, player-count stratum, name stratum); within a case every status reply within <= bound field \
-         deviations of the default (both spellings of each aliased key present/absent/both, optional version, extra variables, \
+         deviations of the default (both spellings of each aliased key present/absent/both, optional version, extra variables (also with upper-case letters in their keys), \
          variable order rotated, 0..64 player lines, quoted/unquoted names, optional address, the reply ending after the last line feed / with a NUL after it / directly after the last line without a line feed) is sent by \
          the reference server and the real query must return name/map/max/version, one player per line with that line's \
          fields, players_online = number of lines and all other variables unchanged. distinct_nontrivial = distinct (outcome \
